@@ -16,6 +16,8 @@
 //	                               `fin` the final chunk is returned together with EOF/error)
 //	wr <ab|ba> <ok|short k|err k>  the parked Write of that copier completes
 //	cl <ab|ba>                     the parked Close of that copier completes
+//	hw <ab|ba> | hr <ab|ba>        its parked CloseWrite / CloseRead completes (`relay.new hc`:
+//	                               conns that have these methods, like *net.TCPConn)
 //	relay.end                      tear the scenario down (every parked op fails "closed")
 //	term.new | term.wait <0|1> | term.ev <start|finish|int|term> | term.handler <kind> <path>
 //	term.release (lets the connections of the "hold" handler path end) | term.end
@@ -36,6 +38,7 @@ import (
 	"io"
 	"net"
 	"os"
+	"os/signal"
 	"runtime"
 	"strconv"
 	"strings"
@@ -118,7 +121,8 @@ func verifQuiesce() bool {
 		states, stacks := verifGoroutines()
 		ok := true
 		for i, s := range states {
-			if !verifParkedStates[s] && !strings.Contains(stacks[i], "verifAcceptLoop") {
+			if !verifParkedStates[s] && !strings.Contains(stacks[i], "verifAcceptLoop") &&
+				!strings.Contains(stacks[i], "os/signal.signal_recv") {
 				ok = false
 				break
 			}
@@ -306,6 +310,23 @@ func (c *verifConn) Close() error {
 	return op.err
 }
 
+// verifConnHC is the scripted conn with the half-close methods of a *net.TCPConn (the plain
+// verifConn has none, like most wrapped transports' conns): both are parked operations the
+// script completes (`hw` / `hr`), logged as closewrite / closeread events.
+type verifConnHC struct{ *verifConn }
+
+func (c verifConnHC) CloseWrite() error {
+	op := &verifOp{kind: "hw", conn: c.verifConn, grant: make(chan struct{})}
+	c.park(op, false)
+	return op.err
+}
+
+func (c verifConnHC) CloseRead() error {
+	op := &verifOp{kind: "hr", conn: c.verifConn, grant: make(chan struct{})}
+	c.park(op, false)
+	return op.err
+}
+
 func (c *verifConn) LocalAddr() net.Addr                { return &net.IPAddr{IP: net.IPv4(127, 0, 0, 1)} }
 func (c *verifConn) RemoteAddr() net.Addr               { return &net.IPAddr{IP: net.IPv4(127, 0, 0, 2)} }
 func (c *verifConn) SetDeadline(_ time.Time) error      { return nil }
@@ -445,6 +466,11 @@ func (r *verifRelay) complete(d string, w []string) bool {
 		}
 		c.closed = true
 		r.events = append(r.events, fmt.Sprintf("close:%s:%s", d, c.name))
+	case "hw", "hr":
+		if c.closed {
+			op.err = verifClosed
+		}
+		r.events = append(r.events, fmt.Sprintf("%s:%s:%s", map[string]string{"hw": "closewrite", "hr": "closeread"}[op.kind], d, c.name))
 	}
 	delete(r.pending, d)
 	r.mu.Unlock()
@@ -469,14 +495,18 @@ func (r *verifRelay) end() bool {
 	}
 }
 
-func verifNewRelay() *verifRelay {
+func verifNewRelay(halfClose bool) *verifRelay {
 	r := &verifRelay{conns: map[string]*verifConn{}, dirOf: map[int64]string{},
 		pending: map[string]*verifOp{}, done: make(chan struct{})}
 	a := &verifConn{r: r, name: "A"}
 	b := &verifConn{r: r, name: "B"}
 	r.conns["A"], r.conns["B"] = a, b
+	var ca, cb net.Conn = a, b
+	if halfClose {
+		ca, cb = verifConnHC{a}, verifConnHC{b}
+	}
 	go func() {
-		err := copyLoop(a, b)
+		err := copyLoop(ca, cb)
 		r.mu.Lock()
 		r.ret = r.errClass(err)
 		r.events = append(r.events, "ret:"+r.ret)
@@ -495,6 +525,7 @@ type verifTerm struct {
 	waiting  bool
 	returned string
 	pending  int // event senders still blocked
+	pkind    map[string]int
 	handlers int // handler goroutines still running
 }
 
@@ -534,7 +565,8 @@ func (t *verifTerm) status(race bool) string {
 	if !race {
 		n = strconv.Itoa(t.m.numHandlers)
 	}
-	return fmt.Sprintf("%s n=%s pending=%d handlers=%d", st, n, t.pending, t.handlers)
+	return fmt.Sprintf("%s n=%s pending=%d handlers=%d pstart=%d pfinish=%d psig=%d", st, n, t.pending, t.handlers,
+		t.pkind["start"], t.pkind["finish"], t.pkind["int"]+t.pkind["term"])
 }
 
 type verifStubTransport struct{}
@@ -747,11 +779,11 @@ func verifDriverMain() {
 			continue
 		}
 		switch {
-		case w[0] == "relay.new" && len(w) == 1:
+		case w[0] == "relay.new" && (len(w) == 1 || len(w) == 2 && w[1] == "hc"):
 			if r != nil {
 				r.end()
 			}
-			r = verifNewRelay()
+			r = verifNewRelay(len(w) == 2)
 			if !verifQuiesce() {
 				reply("not-quiescent")
 				continue
@@ -801,8 +833,8 @@ func verifDriverMain() {
 			} else {
 				reply("noop " + r.status())
 			}
-		case (w[0] == "rd" || w[0] == "wr" || w[0] == "cl") && len(w) >= 2 && r != nil &&
-			(w[0] == "cl" || len(w) >= 3):
+		case (w[0] == "rd" || w[0] == "wr" || w[0] == "cl" || w[0] == "hw" || w[0] == "hr") && len(w) >= 2 && r != nil &&
+			(w[0] == "cl" || w[0] == "hw" || w[0] == "hr" || len(w) >= 3):
 			if !r.complete(w[1], w) {
 				reply("noop " + r.status())
 				continue
@@ -815,9 +847,18 @@ func verifDriverMain() {
 		case w[0] == "log.run":
 			reply(verifLogRun(w))
 		case w[0] == "term.new" && len(w) == 1:
-			// the monitor without the process-wide parts of newTermMonitor (signal.Notify,
-			// stdin/ppid watchers): same channels, same zero count
-			t = &verifTerm{m: &termMonitor{sigChan: make(chan os.Signal), handlerChan: make(chan int)}}
+			// the monitor as main() builds it (newTermMonitor: the channels are the code's own).
+			// The driver never raises real signals; TOR_PT_EXIT_ON_STDIN_CLOSE is cleared so
+			// that no stdin watcher competes for the driver's stdin (Linux: prctl only).
+			os.Unsetenv("TOR_PT_EXIT_ON_STDIN_CLOSE")
+			if t != nil {
+				signal.Stop(t.m.sigChan)
+			}
+			t = &verifTerm{m: newTermMonitor()}
+			if !verifQuiesce() {
+				reply("not-quiescent")
+				continue
+			}
 			reply("ok " + t.status(race))
 		case w[0] == "term.wait" && len(w) == 2 && t != nil && !t.waiting:
 			flag := w[1] == "1"
@@ -848,13 +889,19 @@ func verifDriverMain() {
 				reply("bad-op")
 				continue
 			}
+			kind := w[1]
 			t.mu.Lock()
 			t.pending++
+			if t.pkind == nil {
+				t.pkind = map[string]int{}
+			}
+			t.pkind[kind]++
 			t.mu.Unlock()
 			go func() {
 				f()
 				t.mu.Lock()
 				t.pending--
+				t.pkind[kind]--
 				t.mu.Unlock()
 			}()
 			if !verifQuiesce() {
@@ -903,6 +950,7 @@ func verifDriverMain() {
 				}
 				verifQuiesce()
 			}
+			signal.Stop(t.m.sigChan)
 			t = nil
 			reply("ok")
 		default:
